@@ -2,6 +2,8 @@
    Statements only.  Clause results: Ok b | Ood (str() of a value outside the model). *)
 From Coq Require Import ZArith List Bool String.
 From Rbacx Require Import Value Cond Target Policy PolicyProofs Engine TargetProofs.
+From Rbacx Require Import PolicySet PolicySetProofs Compiler CompilerProofs Oblig EngineProofs Cache CacheProofs CacheKey CacheKeyProofs CacheGuard
+  CacheGuardProofs CacheExplain CacheExplain2 CacheExplain3.
 Import ListNotations.
 Local Open Scope string_scope.
 
@@ -146,3 +148,171 @@ Example c05_example :
   match_resource (VObj [("type", VStr "doc"); ("attrs", VObj [("k", VNum (NInt 1%Z))])])
                  (VObj [("type", VStr "doc"); ("attrs", VObj [])]) None = Ok false.
 Proof. vm_compute. repeat split. Qed.
+
+(* ------------------------------------------------------------------ *)
+(* at Guard level and through the decision cache (theories/CacheExplain3.v) *)
+(* ------------------------------------------------------------------ *)
+Local Open Scope list_scope.   (* ++ is list append below *)
+(* target_clauses strict rdef resource: the target is {} or the type, id and attribute clauses above all
+   answer Ok true in mode [strict] — what match_resource = Ok true means (c05_resource_is_conjunction read
+   backwards); effective_strict: the caller's flag, else the legacy key of the resource dict.
+   action_matches rule env: match_actions rule (the request's action) = Ok true (c05_actions).
+   Cached statements: vocabulary and hypotheses as in props/C01.v. *)
+
+Theorem c05_match_means_clauses : forall rdef resource sa,
+  match_resource rdef resource sa = Ok true -> target_clauses (effective_strict sa resource) rdef resource.
+Proof. exact match_resource_true_clauses. Qed.
+Print Assumptions c05_match_means_clauses.
+
+(* the documented table for a target that matched: lax compares str() forms, strict compares typed values *)
+Theorem c05_target_clauses_table : forall strict rdef resource,
+  target_clauses strict rdef resource ->
+  (forall strs, is_null (get_key "type" rdef) = false ->
+     strs_of (allowed_of (get_key "type" rdef)) = Some strs -> ~ In "*" strs ->
+     if strict then is_str (get_key "type" resource) = true /\
+                    forallb is_str (allowed_of (get_key "type" rdef)) = true /\
+                    existsb (fun x => py_eq x (get_key "type" resource)) (allowed_of (get_key "type" rdef)) = true
+     else is_null (get_key "type" resource) = false /\
+          exists t, py_str (get_key "type" resource) = Some t /\ In t strs) /\
+  (is_null (get_key "id" rdef) = false ->
+     is_null (get_key "id" resource) = false /\
+     if strict then py_eq (get_key "id" resource) (get_key "id" rdef) = true
+     else exists a, py_str (get_key "id" resource) = Some a /\ py_str (get_key "id" rdef) = Some a) /\
+  (forall r_attrs k v, attrs_of rdef = VObj r_attrs -> In (k, v) r_attrs ->
+     exists res_attrs rv, attrs_of resource = VObj res_attrs /\ assoc k res_attrs = Some rv /\
+                          attr_clause strict v rv = Ok true).
+Proof. exact target_clauses_table. Qed.
+Print Assumptions c05_target_clauses_table.
+
+(* the environment Guard builds: its mode is Guard's strict flag, its resource dict is {type, id, attrs} of
+   the request *)
+Theorem c05_engine_effective_strict : forall strict req resolved env,
+  build_env strict req resolved = Some env ->
+  strict_of env = strict /\
+  effective_strict (if strict_of env then Some true else None) (py_or (get_key "resource" env) (VObj [])) = strict.
+Proof. exact engine_effective_strict. Qed.
+Print Assumptions c05_engine_effective_strict.
+Theorem c05_engine_resource : forall strict req resolved env,
+  build_env strict req resolved = Some env ->
+  exists rattrs, obj_or_empty (get_key "attrs" (get_key "resource" req)) = Some rattrs /\
+    py_or (get_key "resource" env) (VObj [])
+    = VObj [("type", get_key "type" (get_key "resource" req)); ("id", get_key "id" (get_key "resource" req));
+            ("attrs", rattrs)].
+Proof. exact build_env_resource. Qed.
+Print Assumptions c05_engine_resource.
+
+(* applicable (C11's notion, on every path) = action matched and target matched clause by clause *)
+Theorem c05_applicable_target_clauses : forall rel rule env,
+  applicable rel rule env ->
+  action_matches rule env /\
+  match_resource (rule_resource rule) (py_or (get_key "resource" env) (VObj []))
+                 (if strict_of env then Some true else None) = Ok true /\
+  target_clauses (effective_strict (if strict_of env then Some true else None)
+                                   (py_or (get_key "resource" env) (VObj [])))
+                 (rule_resource rule) (py_or (get_key "resource" env) (VObj [])).
+Proof. exact applicable_target_clauses. Qed.
+Print Assumptions c05_applicable_target_clauses.
+
+(* (3) the rule a Decision reports (corollary of c11_rule_id_truthful): a rule of the policy with that id
+   whose action matches and whose resource target matches the request's resource by match_resource in
+   GUARD's type mode — hence by the table above, lax or strict *)
+Theorem c05_guard_target_semantics : forall rel strict kvs req resolved d s oblig,
+  tree_ok (VObj kvs) ->
+  guard_eval unit (relh_pure rel) oblig strict (VObj kvs) req resolved tt = (GDecision d, tt) ->
+  d_rule_id d = Some s -> (has_key "policies" (VObj kvs) = true -> s <> "") ->
+  exists env rule,
+    build_env strict req resolved = Some env /\
+    In rule (all_rules (VObj kvs)) /\ rule_id rule = VStr s /\ applicable rel rule env /\
+    action_matches rule env /\
+    match_resource (rule_resource rule) (py_or (get_key "resource" env) (VObj []))
+                   (if strict then Some true else None) = Ok true /\
+    target_clauses strict (rule_resource rule) (py_or (get_key "resource" env) (VObj [])).
+Proof. exact guard_target_semantics. Qed.
+Print Assumptions c05_guard_target_semantics.
+
+(* read the other way: a rule id all of whose bearers mismatch the request's resource is never reported *)
+Theorem c05_guard_mismatching_rule_never_decides : forall rel strict kvs req resolved d s oblig env,
+  tree_ok (VObj kvs) ->
+  guard_eval unit (relh_pure rel) oblig strict (VObj kvs) req resolved tt = (GDecision d, tt) ->
+  build_env strict req resolved = Some env ->
+  (has_key "policies" (VObj kvs) = true -> s <> "") ->
+  (forall rule, In rule (all_rules (VObj kvs)) -> rule_id rule = VStr s ->
+     match_resource (rule_resource rule) (py_or (get_key "resource" env) (VObj []))
+                    (if strict then Some true else None) <> Ok true) ->
+  d_rule_id d <> Some s.
+Proof. exact guard_mismatching_rule_never_decides. Qed.
+Print Assumptions c05_guard_mismatching_rule_never_decides.
+
+(* through the cache, at every site — hit or miss — in the type mode of the evaluating guard *)
+Theorem c05_target_semantics_cached :
+  forall (rel : rel_query -> bool) (T : Type) (tag : value -> T) (teqb : T -> T -> bool),
+  (forall a b, teqb a b = true <-> a = b) ->
+  forall (M : cache_impl T), contract T teqb M ->
+  forall (copying : bool) (g1 g2 : gcfg) (h : list hop),
+  tag_inj T tag (policies_all g1 g2 h) ->
+  (forall e, In e (envs_all g1 g2 h) -> key_safe e = true) ->
+  (forall p, In p (policies_all g1 g2 h) -> tree_ok p) ->
+  forall pre w req post hit d s,
+  h = pre ++ HEval w req :: post ->
+  nth_error (snd (run_cached unit (relh_pure rel) T tag canon builtin_both M copying h (init unit T M g1 g2 tt)))
+            (evals_in pre) = Some (hit, GDecision d) ->
+  d_rule_id d = Some s ->
+  (has_key "policies" (policy_at w pre g1 g2) = true -> s <> "") ->
+  exists env rule,
+    build_env (guard_strict w g1 g2) req None = Some env /\
+    In rule (all_rules (policy_at w pre g1 g2)) /\ rule_id rule = VStr s /\ applicable rel rule env /\
+    action_matches rule env /\
+    match_resource (rule_resource rule) (py_or (get_key "resource" env) (VObj []))
+                   (if guard_strict w g1 g2 then Some true else None) = Ok true /\
+    target_clauses (guard_strict w g1 g2) (rule_resource rule) (py_or (get_key "resource" env) (VObj [])).
+Proof. exact target_semantics_cached. Qed.
+Print Assumptions c05_target_semantics_cached.
+
+Theorem c05_mismatching_rule_never_decides_cached :
+  forall (rel : rel_query -> bool) (T : Type) (tag : value -> T) (teqb : T -> T -> bool),
+  (forall a b, teqb a b = true <-> a = b) ->
+  forall (M : cache_impl T), contract T teqb M ->
+  forall (copying : bool) (g1 g2 : gcfg) (h : list hop),
+  tag_inj T tag (policies_all g1 g2 h) ->
+  (forall e, In e (envs_all g1 g2 h) -> key_safe e = true) ->
+  (forall p, In p (policies_all g1 g2 h) -> tree_ok p) ->
+  forall pre w req post hit d s env,
+  h = pre ++ HEval w req :: post ->
+  nth_error (snd (run_cached unit (relh_pure rel) T tag canon builtin_both M copying h (init unit T M g1 g2 tt)))
+            (evals_in pre) = Some (hit, GDecision d) ->
+  build_env (guard_strict w g1 g2) req None = Some env ->
+  (has_key "policies" (policy_at w pre g1 g2) = true -> s <> "") ->
+  (forall rule, In rule (all_rules (policy_at w pre g1 g2)) -> rule_id rule = VStr s ->
+     match_resource (rule_resource rule) (py_or (get_key "resource" env) (VObj []))
+                    (if guard_strict w g1 g2 then Some true else None) <> Ok true) ->
+  d_rule_id d <> Some s.
+Proof. exact mismatching_rule_never_decides_cached. Qed.
+Print Assumptions c05_mismatching_rule_never_decides_cached.
+
+(* non-vacuity (theories/CacheExplain3.v): rule n7 names the id 7 (a number), the request the id "7".  Two
+   guards, lax and strict, hold [permit n7 ; deny doc] and SHARE DefaultInMemoryCache(4); history: lax
+   evaluate (miss, permit n7), strict evaluate (miss, deny d), lax again (HIT), strict again (HIT) *)
+Example c05_cached_example_answers :
+  map summary uouts =
+  [(false, Some (true, Some "n7", "matched")); (false, Some (false, Some "d", "explicit_deny"));
+   (true, Some (true, Some "n7", "matched")); (true, Some (false, Some "d", "explicit_deny"))].
+Proof. exact u_answers. Qed.
+Example c05_cached_example_modes :
+  match_resource (rule_resource rule_n7) (py_or (get_key "resource" tenv) (VObj [])) None = Ok true /\
+  match_resource (rule_resource rule_n7) (py_or (get_key "resource" tenv_s) (VObj [])) (Some true) = Ok false.
+Proof. exact u_modes. Qed.
+Example c05_cached_example_hypotheses :
+  tag_inj value canon (policies_all ug1 ug2 uh) /\
+  (forall e, In e (envs_all ug1 ug2 uh) -> key_safe e = true) /\
+  (forall p, In p (policies_all ug1 ug2 uh) -> tree_ok p).
+Proof. exact u_history_hypotheses. Qed.
+(* the strict guard's HIT never reports n7; the lax guard's HIT reports n7, whose target matched by the lax table *)
+Example c05_cached_example_hits :
+  (forall d, nth_error uouts 3 = Some (true, GDecision d) -> d_rule_id d <> Some "n7") /\
+  (forall d, nth_error uouts 2 = Some (true, GDecision d) -> d_rule_id d = Some "n7" ->
+     exists env rule,
+       build_env false treq None = Some env /\ In rule (all_rules (VObj num_kvs)) /\ rule_id rule = VStr "n7" /\
+       target_clauses false (rule_resource rule) (py_or (get_key "resource" env) (VObj []))) /\
+  (exists d, nth_error uouts 2 = Some (true, GDecision d) /\ d_rule_id d = Some "n7" /\ d_allowed d = true) /\
+  (exists d, nth_error uouts 3 = Some (true, GDecision d) /\ d_rule_id d = Some "d" /\ d_allowed d = false).
+Proof. exact (conj u_strict_hit_not_n7 (conj u_lax_hit_matches u_hits_exist)). Qed.
